@@ -5,7 +5,8 @@
     a multiple of checkFreq".  All statements are for every scalar instance and
     every fuel; [Spec] is defined in Proofs/ComputeProofs.v. *)
 From Coq Require Import List Arith Bool ZArith Floats.
-From ET Require Import Model.Scalar Model.Sparse Model.Basic Proofs.ComputeProofs.
+From Coq Require Import Reals.
+From ET Require Import Model.Scalar Model.Sparse Model.Basic Proofs.ComputeProofs Proofs.RInst Proofs.BasicProofs Proofs.AnalyticTop.
 Import ListNotations.
 
 (** Out-of-range alpha or epsilon, non-square or empty matrix, mismatched
@@ -62,3 +63,18 @@ Theorem C05_previous_check :
   forall mn fq k, 0 < fq -> sched mn fq k = true -> last mn fq k = prev mn fq k.
 Proof. intros mn fq k H. exact (last_sched mn fq H k). Qed.
 Print Assumptions C05_previous_check.
+
+(** (R) Termination under the default schedule: on canonical inputs the exact
+    recurrence stops within K iterations as soon as 2(1-a)^(K-1) <= e, whatever
+    the trust values; K = ceil(ln(e/2)/ln(1-a)) + 1 satisfies the premise, which
+    is within the documented ceil(ln(e/4)/ln(1-a)) + 2.  For binary64 the same
+    bound is checked per run (PARTIAL: no theorem about rounded iterates). *)
+Theorem C05_terminates_bound_R :
+  forall fuel (C : csm RR) (p : vec RR) (a e : RR) (o : opts RR) (K : nat),
+    canonical C p a e o -> distribution (eff_t0 o p) ->
+    o_check_freq o = None -> o_min_iters o = None -> eff_mx o = None ->
+    (o_flat_tail o <= 0)%Z -> (0 <= o_num_leaders o)%Z ->
+    1 <= K -> (2 * (1 - a) ^ (K - 1) <= e)%R -> K < fuel ->
+    exists t k st, compute fuel C p a e o = Done t k st /\ k <= K.
+Proof. exact compute_terminates_bound. Qed.
+Print Assumptions C05_terminates_bound_R.
